@@ -181,9 +181,9 @@ def reruns(job):
 
 def jobs(tier, seed):
     P = dict(p_intjoin=0.2, p_items=0.25, p_retry=0.1, p_fail_cmd=0.1, p_join=0.6, nmax=6)
-    js = batches("reruns", scale(tier, 160, 5000), scale(tier, 10, 100), gen="mix", p_loop=0.2, P=P, gseed=seed, p_fail=0.25, name="reruns")
+    js = batches("reruns", scale(tier, 128, 5000), scale(tier, 8, 100), gen="mix", p_loop=0.2, P=P, gseed=seed, p_fail=0.25, name="reruns")
     # join-free, with-items heavy definitions: outside the zones of the recorded rerun defects around joins
-    js += batches("reruns", scale(tier, 100, 3000), scale(tier, 10, 100), gen="mix", p_loop=0.2, gseed=seed + 1, p_fail=0.2,
+    js += batches("reruns", scale(tier, 96, 3000), scale(tier, 6, 100), gen="mix", p_loop=0.2, gseed=seed + 1, p_fail=0.2,
                   P=dict(P, p_join=0.0, p_items=0.5, p_fail_cmd=0.03, p_retry=0.05, nmax=5, max_do=2, max_trans=2, xs_max=2),
                   name="reruns-no-joins")
     return js
